@@ -28,6 +28,7 @@ struct GenConfig {
   bool guards = true;      // assume-guarded branches (else pure non-determinism)
   bool func_decl = true;   // give the (single) function a declaration with outputs
   bool templates = true;   // sometimes emit a counting-loop template
+  bool partition = false;  // emit value_partition_start/_end intrinsics (value-partitioning domains)
   int bv_width = 0;        // BV profile: width of the ordinary integer variables (0 = not BV)
   bool arr_assign = true;  // ARRAY profile: array copies (array_adaptive has no backward array_assign)
   Json to_json() const;
